@@ -336,6 +336,9 @@ def run(ctx):
     from . import effects
     effects.check_property(ctx, "C11")    # R11.E: no operation on shared protocol state outside the reviewed table
     from . import C01 as _C01
+    _C01.r2_chunking(ctx)            # the pieces of one oversized submission are framed and written in their original order
+    from . import C09 as _C09
+    _C09.r9_write_errors_funnel(ctx) # a failed transport write ends the session: it is never retried (the transport may already hold a prefix of the frame)
     _C01.r9_complete_writes(ctx)     # a short write that is not completed leaves a frame fragment on the wire: every later frame of every stream is mis-parsed
     from . import C01, C05
     C01.r8_single_forwarder(ctx)   # one forwarder drains the outbound queue and passes each (id, chunk) on unchanged: per-task FIFO on the wire
